@@ -59,17 +59,33 @@ def _FloatFix(v):
   return v
 
 
-def TraceLine(case, res):
+def _Obs(case, res, preds):
   obs = []
-  for p in case['query']:
+  for p in preds:
     pr = res['preds'].get(p)
     if not pr or pr.get('status') != 'ok':
       continue
     obs.append({'p': p, 'ordered': p in case.get('ordered', ()),
                 'rows': [{c: _FloatFix(v) for c, v in r.items()}
                          for r in pr['rows']]})
-  return {'id': case['id'], 'prog': StripForTlc(case['prog']), 'dev': [],
-          'obs': obs}
+  return obs
+
+
+def TraceLine(case, res, base_res=None):
+  line = {'id': case['id'], 'prog': StripForTlc(case['prog']), 'dev': [],
+          'obs': _Obs(case, res, case['query']), 'base': [], 'qmap': [],
+          'bobs': []}
+  if case.get('base') is not None:
+    line['base'] = [StripForTlc(case['base'])]
+    line['qmap'] = [{'b': b, 'v': v, 'ordered': bool(o)}
+                    for b, v, o in case['qmap']]
+    if base_res is not None and base_res.get('status') == 'ok':
+      for b, v, _ in case['qmap']:
+        pr = base_res['preds'].get(b)
+        if pr and pr.get('status') == 'ok':
+          line['bobs'].append({'p': v, 'rows': [
+              {c: _FloatFix(x) for c, x in r.items()} for r in pr['rows']]})
+  return line
 
 
 def ParseVerdictLine(line):
